@@ -11,20 +11,28 @@ Ev == Trace[l]
 
 CutOf(e) == IF e.cutkind = "none" THEN NoCut ELSE [kind |-> e.cutkind, t |-> e.cutt]
 Match == Proj' = [ok |-> Ev.ok, hasCred |-> Ev.hasCred, mfgN |-> Ev.mfgN, ownerN |-> Ev.ownerN,
-                  agreeM |-> Ev.agreeM, agreeO |-> Ev.agreeO]
+                  agreeM |-> Ev.agreeM, agreeO |-> Ev.agreeO, rvLive |-> Ev.rvLive, hasBlob |-> Ev.hasBlob]
 
 TDI       == Ev.a = "di" /\ DI(CutOf(Ev)) /\ Match
 THandover == Ev.a = "handover" /\ Handover(Ev.k) /\ Match
-TTO2      == Ev.a = "to2" /\ TO2(Ev.reuse, CutOf(Ev)) /\ Match
+TTO2      == Ev.a = "to2" /\ TO2(Ev.reuse, CutOf(Ev), Ev.useblob) /\ Match
 TResell   == Ev.a = "resell" /\ Resell /\ Match
 TPersist  == Ev.a = "persist" /\ Persist /\ Match
+TResellBad == Ev.a = "resellbad" /\ ResellBad /\ Match
+TRestore  == Ev.a = "restore" /\ Restore /\ Match
+TResellMissing == Ev.a = "resellmissing" /\ ResellMissing /\ Match
+TRegister == Ev.a = "register" /\ Register /\ Match
+TExpire   == Ev.a = "expire" /\ Expire /\ Match
+TLocate   == Ev.a = "locate" /\ Locate /\ Match
 TReset    == /\ Ev.a = "reset"
              /\ cred' = NoCred /\ mfgStore' = {} /\ ownerStore' = {} /\ ownerKey' = 1 /\ nextGuid' = 1
              /\ last' = [a |-> "init", ok |-> TRUE] /\ cuts' = 0 /\ steps' = 0
+             /\ aio' = Ev.aio /\ rv' = {} /\ blob' = NoBlob /\ held' = NoV
 
 TraceInit == Init /\ l = 1
 TraceNext == /\ l <= Len(Trace) /\ l' = l + 1
-             /\ (TDI \/ THandover \/ TTO2 \/ TResell \/ TPersist \/ TReset)
+             /\ (TDI \/ THandover \/ TTO2 \/ TResell \/ TPersist \/ TReset
+                 \/ TResellBad \/ TRestore \/ TResellMissing \/ TRegister \/ TExpire \/ TLocate)
 TraceSpec == TraceInit /\ [][TraceNext]_<<vars, l>>
 TraceAccepted == LET d == TLCGet("stats").diameter - 1 IN PrintT(<<"TRACE_HWM", d>>) /\ d = Len(Trace)
 =============================================================================
